@@ -93,3 +93,226 @@ def dispatch_table(ctx, fn_path, adt):
             ent['parser'] = None
         table[v] = ent
     return table, B
+
+
+# ------------------------------------------------------------------- encoder side ----
+ENC = 'erltf::encoder::'
+
+
+def encoder_fns(F):
+    return [p for p in F.bodies if p.startswith(ENC + 'encode_') and F.bodies[p]['kind'] == 'Fn']
+
+
+def writer_events(P, fn):
+    """raw success sequences of an encoder function with buffer identity and sub-encoder calls as events"""
+    from .ranges import canon
+    from .families import describe
+    from .wire import prim_of, _val, _len_of
+    B = P.B(fn)
+    encs = set(encoder_fns(P.F))
+
+    def ev(B_, bb):
+        t = B_.blocks[bb]['t']
+        if t['k'] != 'call':
+            return []
+        p = prim_of(t)
+        if p is not None and p[0] == 'w':
+            buf = describe(B_, canon(B_, t['args'][0]))
+            d, w, m = p
+            val = t['args'][1] if len(t['args']) > 1 else None
+            if w == 'bytes':
+                ln = _len_of(B_, val) if val is not None else None
+                return [('w', 'bytes', ln if isinstance(ln, int) else (_val(B_, val) if val is not None else None), buf, bb)]
+            if w == 'push':
+                return []
+            return [('w', w, _val(B_, val) if val is not None else None, buf, bb)]
+        for n in callee_names(t):
+            if n in encs and n != fn or (n in encs and n == fn):
+                buf = describe(B_, canon(B_, t['args'][0])) if t['args'] else '?'
+                arg = describe(B_, canon(B_, t['args'][1])) if len(t['args']) > 1 else None
+                return [('call', n, arg, buf, bb)]
+        return []
+    seqs, trunc = success_sequences(B, ev)
+    return B, seqs, trunc
+
+
+def _flatten_buffers(seq):
+    """a function that builds part of its output in a temporary buffer and then appends that buffer:
+    splice the temporary's events where the buffer is written."""
+    bufs = {}
+    for e in seq:
+        if isinstance(e, tuple) and e and e[0] in ('w', 'call'):
+            bufs.setdefault(e[3], []).append(e)
+        elif isinstance(e, tuple) and e and e[0] == 'rep':
+            inner = [x for x in e[1] if isinstance(x, tuple) and x and x[0] in ('w', 'call')]
+            if inner:
+                bufs.setdefault(inner[0][3], []).append(e)
+    if len(bufs) <= 1:
+        return list(seq)
+    # main buffer = the one that receives a bytes-write whose value names another buffer
+    names = list(bufs)
+    main = None
+    for b in names:
+        for e in bufs[b]:
+            if e[0] == 'w' and e[1] == 'bytes' and any(str(e[2]) == o or str(e[2]).startswith(o) for o in names if o != b):
+                main = b
+    if main is None:
+        return list(seq)
+    out = []
+    for e in bufs[main]:
+        if e[0] == 'w' and e[1] == 'bytes' and any(str(e[2]) == o for o in names if o != main):
+            out += bufs[str(e[2])]
+        else:
+            out.append(e)
+    return out
+
+
+def writer_paths(P, fn):
+    """list of dict(tag, items, first_call) for each success path of an encoder function.
+    items: normalised layout AFTER the tag byte in the notation of wire.fmt_sig."""
+    import re
+    B, seqs, trunc = writer_events(P, fn)
+    out = []
+    for seq in sorted(seqs, key=str):
+        flat = _flatten_buffers(seq)
+        if not flat:
+            out.append({'tag': None, 'layout': '', 'first_call': None, 'raw': ()})
+            continue
+        first = flat[0]
+        if first[0] == 'call':
+            out.append({'tag': None, 'layout': None, 'first_call': first[1], 'raw': tuple(flat)})
+            continue
+        if first[0] == 'rep':
+            out.append({'tag': None, 'layout': None, 'first_call': None, 'raw': tuple(flat)})
+            continue
+        tag = first[2] if (first[0] == 'w' and first[1] == 'u8' and isinstance(first[2], int)) else None
+        items = flat[1:] if tag is not None else flat
+        lens = {}       # collection name -> index of the item that wrote its length
+        layout = []
+
+        def name_of_len(v):
+            m = re.findall(r'len\(([^()]*(?:\([^()]*\))?[^()]*)\)', str(v))
+            return m[0] if m else None
+        for i, e in enumerate(items):
+            if e[0] == 'w' and e[1] not in ('bytes',):
+                nm = name_of_len(e[2]) if e[2] is not None else None
+                if nm:
+                    lens[nm] = i
+                layout.append(e[1])
+            elif e[0] == 'w' and e[1] == 'bytes':
+                v = e[2]
+                if isinstance(v, int):
+                    layout.append('bytes[%d]' % v)
+                else:
+                    key = None
+                    for nm, idx in lens.items():
+                        if str(v) == nm or str(v).startswith(nm) or nm.startswith(str(v)) or re.sub(r'^index\(|\(.*$', '', str(v)) == nm:
+                            key = idx
+                    if key is None and lens:
+                        # slice of something whose length was written: bytes[x[..n]] with n written
+                        for nm, idx in lens.items():
+                            if nm in str(v):
+                                key = idx
+                    if key is None:
+                        # bytes[ x[..n] ] where n itself was written by an earlier item
+                        from .ranges import canon as _canon
+                        t_ = B.blocks[e[-1]]['t']
+                        if len(t_['args']) > 1:
+                            o_ = B.origin(t_['args'][1])
+                            while o_[0] == 'cast':
+                                o_ = o_[3]
+                            if o_[0] == 'call' and o_[1] and o_[1].endswith('::index'):
+                                it_ = B.blocks[o_[2]]['t']
+                                ro = B.origin(it_['args'][1])
+                                if ro[0] == 'agg' and ro[1].get('adt', '').endswith('RangeTo'):
+                                    endc = _canon(B, ro[1]['ops'][0])
+                                    for k2, e2 in enumerate(items[:i]):
+                                        if e2[0] == 'w' and e2[1] != 'bytes':
+                                            t2 = B.blocks[e2[-1]]['t']
+                                            c2 = _canon(B, t2['args'][1])
+                                            while c2[0] == 'cast':
+                                                c2 = c2[2]
+                                            if c2 == endc:
+                                                key = k2
+                    layout.append('bytes[%s]' % ('#%d' % key if key is not None else '?'))
+            elif e[0] == 'call':
+                layout.append('term')
+            elif e[0] == 'rep':
+                inner = []
+                coll = None
+                for x in e[1]:
+                    if x[0] == 'call':
+                        inner.append('term')
+                    elif x[0] == 'w':
+                        inner.append(x[1])
+                # which collection does the loop walk?  from the value descriptions: next(...) hides it;
+                # use loop_bound on the body
+                from .wire import loop_bound, _sccs
+                ref = '?'
+                bb0 = e[1][0][-1] if e[1] else None
+                if bb0 is not None:
+                    comps = _sccs(B, B.live_blocks())
+                    for c in comps:
+                        if bb0 in c and (len(c) > 1):
+                            lb = loop_bound(B, set(c))
+                            if lb and lb[0] == 'iter':
+                                from .wire import _short_o
+                                cname = _short_o(B, lb[1])
+                                for nm, idx in lens.items():
+                                    if nm == cname or nm.endswith(cname) or cname.endswith(nm):
+                                        ref = '#%d' % idx
+                                if ref == '?':
+                                    ref = 'iter:' + cname
+                            elif lb and lb[0] == 'range':
+                                from .families import describe
+                                ref = 'range:' + describe(B, lb[1])
+                layout.append('rep[%s](%s)' % (ref, ' '.join(inner)))
+        out.append({'tag': tag, 'layout': ' '.join(layout), 'first_call': None, 'raw': tuple(flat)})
+    return out
+
+
+def tags_of(P, fn, _seen=None):
+    """set of tags an encoder function can emit as the first byte (following leading sub-encoder calls)"""
+    if _seen is None:
+        _seen = set()
+    if fn in _seen:
+        return set()
+    _seen.add(fn)
+    out = set()
+    for p in writer_paths(P, fn):
+        if p['tag'] is not None:
+            out.add(p['tag'])
+        elif p['first_call']:
+            out |= tags_of(P, p['first_call'], _seen)
+    return out
+
+
+def encoder_dispatch(ctx):
+    """OwnedTerm variant -> encoder function called by encode_term_impl"""
+    B = ctx.body(ENC + 'encode_term_impl')
+    if B is None:
+        return None
+    sw = None
+    for i in sorted(B.live_blocks()):
+        sd = B.switch_on_discr(i)
+        if sd and OWNED in sd[1]:
+            sw = (i, sd)
+            break
+    if not ctx.anchor(sw is not None, ENC + 'encode_term_impl:match term'):
+        return None
+    i, (pl, ty, cases, els) = sw
+    starts = sorted({b for _, b in cases})
+    excl = exclusive_blocks(B, starts)
+    vs = [v['n'] for v in ctx.F.adts[OWNED]['variants']]
+    encs = set(encoder_fns(ctx.F))
+    table = {}
+    for v, b in cases:
+        fns = []
+        for bb in sorted(excl[b]):
+            t = B.blocks[bb]['t']
+            if t['k'] == 'call':
+                for n in callee_names(t):
+                    if n in encs:
+                        fns.append(n)
+        table[vs[v]] = fns[0] if fns else None
+    return table
